@@ -18,5 +18,10 @@ import FpgoVerif.Props.C19
 #print axioms FpgoVerif.C19.C19_sortedList_heap
 #print axioms FpgoVerif.C19.C19_alias_variant_modifies_input
 #print axioms FpgoVerif.C19.C19_sortInPlace
+#print axioms FpgoVerif.C19.C19_builder_code_shape
+#print axioms FpgoVerif.C19.C19_builder_fork
+#print axioms FpgoVerif.C19.C19_forked_builders
+#print axioms FpgoVerif.C19.C19_builder_reserved_capacity_aliases
+#print axioms FpgoVerif.C19.C19_builder_fork_of_three_keys_aliases
 #print axioms FpgoVerif.C19.C19_oracle_accepts_exactly_model
 #print axioms FpgoVerif.C19.C19_oracle_desc
